@@ -279,8 +279,7 @@ func defaultOpts() GenumOpts { return GenumOpts{JSON: true, YAML: true, Text: tr
 
 // quickSpecs: every one of the 32 settings at least twice (a definition without parsable traits —
 // alternately without and with traits — and one with a parsable subset), definitions rotating
-// through the whole catalogue; the special and near-miss shapes at the default and one drawn
-// setting; gerror with/without skipConvertGen; gsort value/pointer.
+// through the whole catalogue; one special shape and the near-miss shapes; gerror with/without skipConvertGen; gsort value/pointer.
 func quickSpecs(r *rand.Rand) []*Spec {
 	var out []*Spec
 	add := func(kind string, e *EnumSpec, o *GenumOpts) {
@@ -309,14 +308,14 @@ func quickSpecs(r *rand.Rand) []*Spec {
 	for i := range kindOrder {
 		add("kinds", td[i], withParsable(defaultOpts(), nil))
 	}
-	for _, sp := range specialDefs() {
-		add("special", sp.E, withParsable(defaultOpts(), sp.Parsable))
-		add("special", sp.E, withParsable(settings[r.IntN(32)], sp.Parsable))
-	}
-	ci := defaultOpts()
+	// the special shapes (C12-owned ones, the case-insensitive collision) at the default setting are
+	// corpus entries (corpus/C13); here each is tried under one drawn setting
+	sps := specialDefs()
+	sp := sps[r.IntN(len(sps))]
+	add("special", sp.E, withParsable(settings[r.IntN(32)], sp.Parsable))
+	ci := settings[r.IntN(32)]
 	ci.CI = true
 	add("special", ciCollision(), withParsable(ci, nil))
-	add("special", ciCollision(), withParsable(defaultOpts(), nil))
 	for _, sp := range nearMissDefs() {
 		add("nearmiss", sp.E, withParsable(defaultOpts(), sp.Parsable))
 	}
